@@ -19,35 +19,37 @@ variable {β α : Type}
 
 /-- the code has the protocol shape the proofs need: publish = CAS from nil, result = re-load.
 (`decide` on the generated facts: breaks when the shape of the code changes.) -/
-theorem code_shape (present : Bool) (buf : β) (decode : β → α) : (lazyCfg present buf decode).Safe :=
-  ⟨(by decide : lazyPublish = .cas), (by decide : lazyResult = .reload)⟩
+theorem code_shape (present : Bool) (buf : β) (entries : Nat) (decodeK : β → Nat → α) :
+    (lazyCfg present buf entries decodeK).Safe :=
+  ⟨(by decide : lazyPublish = .cas), (by decide : lazyResult = .reload), (by decide : lazyTiming = .afterAll)⟩
 
 /-- the extracted shape facts, spelled out -/
 theorem shape_facts :
     Gen.ConcFacts.setIfNilIsCAS = true ∧ Gen.ConcFacts.lazyUnmarshalDecodesIntoFresh = true ∧
-    Gen.ConcFacts.lazyUnmarshalPublishesViaSetIfNil = true ∧ Gen.ConcFacts.getterLoadsAreAtomic = true ∧
+    Gen.ConcFacts.lazyUnmarshalPublishesViaSetIfNil = true ∧ Gen.ConcFacts.lazyUnmarshalPublishesAfterAllEntries = true ∧
+    Gen.ConcFacts.getterLoadsAreAtomic = true ∧
     Gen.ConcFacts.generatorEmitsProtocolOrder = true ∧
     Gen.ConcFacts.generatedLazyGettersConforming = Gen.ConcFacts.generatedLazyGetters ∧
     Gen.ConcFacts.reflectLazySitesReloading = Gen.ConcFacts.reflectLazySites := by decide
 
 section
-variable {present : Bool} {buf : β} {decode : β → α}
-local notation "cfg" => lazyCfg present buf decode
+variable {present : Bool} {buf : β} {entries : Nat} {decodeK : β → Nat → α}
+local notation "cfg" => lazyCfg present buf entries decodeK
 
 /-- The pointer cell changes at most once: once set it keeps its value in every later state. -/
 theorem cell_changes_at_most_once {s t : State α} (_ : Reachable cfg s) (h : Steps cfg s t) {v : Nat}
     (hv : s.cell = some v) : t.cell = some v :=
-  steps_cell_stable (code_shape present buf decode) h hv
+  steps_cell_stable (code_shape present buf entries decodeK) h hv
 
 /-- … and the one change is nil → the object some thread decoded and is publishing. -/
 theorem cell_only_nil_to_decoded {s t : State α} (st : Step cfg s t) (hne : t.cell ≠ s.cell) :
-    s.cell = none ∧ ∃ i m, s.pc i = .publish m ∧ t.cell = some m :=
-  step_cell_change st hne (code_shape present buf decode)
+    s.cell = none ∧ ∃ i m k, s.pc i = .own m k true ∧ t.cell = some m :=
+  step_cell_change st hne (code_shape present buf entries decodeK)
 
 /-- All readers that have returned hold the same submessage instance, and it is the cell's value. -/
 theorem readers_agree {s : State α} (r : Reachable cfg s) {i j v w : Nat}
     (hi : s.pc i = .done (some v)) (hj : s.pc j = .done (some w)) : v = w ∧ s.cell = some v := by
-  have inv := inv_reachable (code_shape present buf decode) r
+  have inv := inv_reachable (code_shape present buf entries decodeK) r
   have a := inv.done_cell i v hi
   have b := inv.done_cell j w hj
   rw [a] at b
@@ -64,7 +66,7 @@ theorem result_stable {s t : State α} (h : Steps cfg s t) {i : Nat} {res : Opti
 it is unreachable from the message. -/
 theorem loser_never_returned {s : State α} (r : Reachable cfg s) {m : Nat} (hl : s.lost m = true) :
     (∀ i, s.pc i ≠ .done (some m)) ∧ s.cell ≠ some m := by
-  have inv := inv_reachable (code_shape present buf decode) r
+  have inv := inv_reachable (code_shape present buf entries decodeK) r
   have hc : s.cell ≠ some m := by
     intro h
     have := (inv.cell_ok m h).2
@@ -73,7 +75,7 @@ theorem loser_never_returned {s : State α} (r : Reachable cfg s) {m : Nat} (hl 
 
 /-- No reader is stuck at `load`: when a thread reaches the load the cell is set. -/
 theorem load_enabled {s : State α} (r : Reachable cfg s) {i : Nat} (h : s.pc i = .load) : ∃ v, s.cell = some v := by
-  have inv := inv_reachable (code_shape present buf decode) r
+  have inv := inv_reachable (code_shape present buf entries decodeK) r
   cases hc : s.cell with
   | none => exact absurd hc (inv.load_set i h)
   | some v => exact ⟨v, rfl⟩
@@ -82,87 +84,124 @@ theorem load_enabled {s : State α} (r : Reachable cfg s) {i : Nat} (h : s.pc i 
 (no thread ever waits for another one: the protocol is lock-free and panic-free). -/
 theorem reader_never_stuck {s : State α} (r : Reachable cfg s) (i : Nat) (hnd : ∀ res, s.pc i ≠ .done res) :
     ∃ t, Step cfg s t ∧ t.pc i ≠ s.pc i :=
-  enabled (code_shape present buf decode) r i hnd
+  enabled (code_shape present buf entries decodeK) r i hnd
 
 /-- The common result equals the sequential result: a reader returns nil iff the field is absent,
-and otherwise an object holding exactly the decoding of the buffer. -/
+and otherwise an object holding exactly the complete decoding of the buffer (all index entries merged). -/
 theorem result_eq_sequential {s : State α} (r : Reachable cfg s) {i : Nat} {res : Option Nat}
     (hd : s.pc i = .done res) : res.bind s.heap = seqResult cfg := by
-  have inv := inv_reachable (code_shape present buf decode) r
+  have inv := inv_reachable (code_shape present buf entries decodeK) r
   cases res with
   | none =>
     have hp : present = false := inv.pres_no i hd
     simp [seqResult, lazyCfg, hp]
   | some v =>
     have hp : present = true := inv.pres_yes i (by rw [hd]; intro h; cases h) (by rw [hd]; intro h; cases h)
-    have hv := (inv.cell_ok v (inv.done_cell i v hd)).1
-    have := inv.heap_ok v hv
+    have := (inv.cell_ok v (inv.done_cell i v hd)).2.2
     simp [seqResult, lazyCfg, hp, this]
 
 /-- The published object, too, holds the decoding of the buffer (so every later reader and every
 serialisation of the message sees what a sequential decode would have produced). -/
 theorem cell_eq_sequential {s : State α} (r : Reachable cfg s) {v : Nat} (hc : s.cell = some v) :
-    s.heap v = some (decode buf) := by
-  have inv := inv_reachable (code_shape present buf decode) r
-  exact inv.heap_ok v (inv.cell_ok v hc).1
+    s.heap v = some (decodeK buf entries) := by
+  have inv := inv_reachable (code_shape present buf entries decodeK) r
+  exact (inv.cell_ok v hc).2.2
 
 end
 
-/-- The sequential run itself (one thread, alone) ends in `done` with the sequential result. -/
-theorem sequential_run (present : Bool) (buf : β) (decode : β → α) :
-    ∃ s res, Reachable (lazyCfg present buf decode) s ∧ s.pc 0 = .done res ∧
-      res.bind s.heap = seqResult (lazyCfg present buf decode) := by
+/-- a thread that owns a private object finishes the loop over the index entries on its own -/
+theorem merge_all {cfg : Cfg β α} (safe : cfg.Safe) (i m : Nat) :
+    ∀ (n k : Nat) (s : State α), k + n = cfg.entries → s.pc i = .own m k false → s.heap m = some (cfg.decodeK cfg.buf k) →
+      ∃ t, Steps cfg s t ∧ t.pc i = .own m cfg.entries true ∧ t.heap m = some cfg.full ∧ t.cell = s.cell := by
+  have hm : ∀ m k, afterMerge cfg m k = .own m k false := by intro m k; simp [afterMerge, safe.afterAll]
+  have hl : ∀ m k, afterLoop cfg m k = .own m k true := by intro m k; simp [afterLoop, safe.afterAll]
+  intro n
+  induction n with
+  | zero =>
+    intro k s hk hpc hh
+    have hke : k = cfg.entries := by omega
+    refine ⟨_, Steps.tail (Steps.refl s) (Step.merge_end s i m k hpc (by omega)), ?_, ?_, rfl⟩
+    · simp [upd, hl, hke]
+    · simp [hh, hke, Cfg.full]
+  | succ n ih =>
+    intro k s hk hpc hh
+    have st := Step.merge s i m k hpc (by omega)
+    obtain ⟨t, h1, h2, h3, h4⟩ := ih (k + 1) _ (by omega) (by simp [upd, hm]) (by simp [upd])
+    exact ⟨t, Steps.head st h1, h2, h3, by simpa using h4⟩
+
+/-- The sequential run itself (one thread, alone) ends in `done` with the sequential result,
+whatever the number of index entries. -/
+theorem sequential_run (present : Bool) (buf : β) (entries : Nat) (decodeK : β → Nat → α) :
+    ∃ s res, Reachable (lazyCfg present buf entries decodeK) s ∧ s.pc 0 = .done res ∧
+      res.bind s.heap = seqResult (lazyCfg present buf entries decodeK) := by
+  have safe := code_shape present buf entries decodeK
   cases present with
   | false =>
-    refine ⟨_, none, run_reachable (lazyCfg false buf decode) [.present 0 false], ?_, ?_⟩
-    · simp [run, exec, next, init, upd, lazyCfg]
+    refine ⟨_, none, Reachable.step Reachable.init (Step.present_no init 0 rfl rfl), ?_, ?_⟩
+    · simp [upd]
     · simp [seqResult, lazyCfg]
   | true =>
-    have hp : lazyPublish = .cas := by decide
-    have hr : lazyResult = .reload := by decide
-    refine ⟨_, some 0, run_reachable (lazyCfg true buf decode)
-      [.present 0 true, .checkNil 0 true, .decode 0 0, .publish 0 true, .load 0 0], ?_, ?_⟩
-    · simp [run, exec, next, init, upd, lazyCfg, hp, hr, afterPublish]
-    · simp [run, exec, next, init, upd, lazyCfg, hp, hr, afterPublish, seqResult]
+    let cfg := lazyCfg true buf entries decodeK
+    have ha : ∀ m k, afterCas cfg m k = .load := by
+      intro m k; simp [afterCas, afterPublish, safe.afterAll, safe.reload]
+    have r1 := Reachable.step (cfg := cfg) Reachable.init (Step.present_yes init 0 rfl rfl)
+    have r2 := Reachable.step r1 (Step.checkNil_nil _ 0 (by simp [upd]) rfl)
+    have r3 := Reachable.step r2 (Step.alloc _ 0 (by simp [upd]))
+    obtain ⟨t, h1, h2, h3, h4⟩ := merge_all safe 0 0 entries 0 _ (by simp [cfg, lazyCfg]) (by simp [upd, init]) (by simp [upd, init, cfg, lazyCfg])
+    have r4 := steps_reachable r3 h1
+    have hcell : t.cell = none := by rw [h4]; rfl
+    have r5 := Reachable.step r4 (Step.cas_win t 0 0 _ h2 safe.cas hcell)
+    have r6 := Reachable.step r5 (Step.load _ 0 0 (by simp [upd, ha]) rfl)
+    refine ⟨_, some 0, r6, by simp [upd], ?_⟩
+    simp only [Option.bind_some]
+    rw [h3]; simp [seqResult, cfg, lazyCfg]
 
 /-- The sync.Map caches of internal/impl/legacy_*.go (Load; compute; LoadOrStore; return the stored
 value) are the same publish-once protocol: all callers obtain the same cached object. -/
 theorem legacy_cache_agree {key : β} {compute : β → α} {s : State α}
     (r : Reachable (legacyCacheCfg key compute) s) {i j v w : Nat}
     (hi : s.pc i = .done (some v)) (hj : s.pc j = .done (some w)) : v = w ∧ s.heap v = some (compute key) := by
-  have safe : (legacyCacheCfg key compute).Safe := ⟨(by decide : legacyCachePublish = .cas), rfl⟩
+  have safe : (legacyCacheCfg key compute).Safe := ⟨(by decide : legacyCachePublish = .cas), rfl, rfl⟩
   have inv := inv_reachable safe r
   have a := inv.done_cell i v hi
   have b := inv.done_cell j w hj
   rw [a] at b
-  exact ⟨Option.some.inj b, inv.heap_ok v (inv.cell_ok v a).1⟩
+  exact ⟨Option.some.inj b, (inv.cell_ok v a).2.2⟩
 
 /-! ### Non-vacuity: reachable states with many threads in distinct phases -/
 
-/-- the code's protocol over a concrete buffer (decoder = identity) -/
-abbrev demo : Cfg (List Nat) (List Nat) := lazyCfg true [8, 1] id
+/-- the code's protocol over a concrete buffer: the field occurs in two non-contiguous pieces
+(two index entries); merging the first k entries yields the first k pieces -/
+abbrev demo : Cfg (List Nat) (List Nat) := lazyCfg true [8, 1] 2 (fun b k => b.take k)
 
-/-- five threads in five phases: 0 has returned object 0; 1 decoded object 1 and is about to lose
-its CAS; 2 lost its CAS and waits at the load; 3 is at the nil check; 4 has not started. -/
+/-- allocation and both merges of thread i -/
+abbrev dec (i obj : Nat) : List Ev := decodeEvents demo i obj
+
+/-- six threads in six phases: 0 has returned object 0; 1 decoded object 1 completely and is about
+to lose its CAS; 2 lost its CAS and waits at the load; 3 is in the middle of the merge loop (one
+of two entries merged); 4 is at the nil check; 5 has not started. -/
 def demoSchedule : List Ev :=
-  [.present 0 true, .present 1 true, .present 2 true, .present 3 true,
-   .checkNil 0 true, .checkNil 1 true, .checkNil 2 true,
-   .decode 0 0, .decode 1 1, .decode 2 2,
-   .publish 0 true, .publish 2 false, .load 0 0]
+  [.present 0 true, .present 1 true, .present 2 true, .present 3 true, .present 4 true,
+   .checkNil 0 true, .checkNil 1 true, .checkNil 2 true, .checkNil 3 true] ++
+  dec 0 0 ++ dec 1 1 ++ dec 2 2 ++ [.alloc 3 3, .merge 3] ++
+  [.publish 0 true, .publish 2 false, .load 0 0]
 
 example : acceptsTrace demo demoSchedule = true := by decide
 
 example :
     let s := run demo demoSchedule
-    Reachable demo s ∧ s.pc 0 = .done (some 0) ∧ s.pc 1 = .publish 1 ∧ s.pc 2 = .load ∧
-    s.pc 3 = .checkNil ∧ s.pc 4 = .checkPresent ∧ s.cell = some 0 ∧ s.lost 2 = true ∧ s.lost 0 = false :=
-  ⟨run_reachable demo demoSchedule, by decide, by decide, by decide, by decide, by decide, by decide, by decide, by decide⟩
+    Reachable demo s ∧ s.pc 0 = .done (some 0) ∧ s.pc 1 = .own 1 2 true ∧ s.pc 2 = .load ∧ s.pc 3 = .own 3 1 false ∧
+    s.pc 4 = .checkNil ∧ s.pc 5 = .checkPresent ∧ s.cell = some 0 ∧ s.lost 2 = true ∧ s.lost 0 = false ∧
+    s.heap 0 = some [8, 1] ∧ s.heap 3 = some [8] :=
+  ⟨run_reachable demo demoSchedule, by decide, by decide, by decide, by decide, by decide, by decide, by decide, by decide,
+   by decide, by decide, by decide⟩
 
-/-- the same schedule continued to the end: three readers hold the same object -/
+/-- the same schedule continued to the end: five readers hold the same, complete object -/
 example :
-    let s := run demo (demoSchedule ++ [.publish 1 false, .load 1 0, .load 2 0, .checkNil 3 false, .load 3 0])
-    s.pc 0 = .done (some 0) ∧ s.pc 1 = .done (some 0) ∧ s.pc 2 = .done (some 0) ∧ s.pc 3 = .done (some 0) ∧
-    s.lost 1 = true ∧ s.lost 2 = true ∧ s.heap 0 = some [8, 1] := by decide
+    let s := run demo (demoSchedule ++ [.publish 1 false, .load 1 0, .load 2 0, .merge 3, .mergeEnd 3, .publish 3 false, .load 3 0,
+      .checkNil 4 false, .load 4 0])
+    s.pc 0 = .done (some 0) ∧ s.pc 1 = .done (some 0) ∧ s.pc 2 = .done (some 0) ∧ s.pc 3 = .done (some 0) ∧ s.pc 4 = .done (some 0) ∧
+    s.lost 1 = true ∧ s.lost 2 = true ∧ s.lost 3 = true ∧ s.heap 0 = some [8, 1] := by decide
 
 /-! ### The theorems are sensitive to the protocol shape -/
 
@@ -172,8 +211,8 @@ theorem plain_store_breaks_agreement :
     let bad : Cfg (List Nat) (List Nat) := { demo with publish := .store }
     ∃ s, Reachable bad s ∧ s.pc 0 = .done (some 0) ∧ s.pc 1 = .done (some 1) ∧ s.cell = some 1 := by
   intro bad
-  let tr : List Ev := [.present 0 true, .present 1 true, .checkNil 0 true, .checkNil 1 true, .decode 0 0, .decode 1 1,
-    .publish 0 true, .load 0 0, .publish 1 true, .load 1 1]
+  let tr : List Ev := [.present 0 true, .present 1 true, .checkNil 0 true, .checkNil 1 true] ++ dec 0 0 ++ dec 1 1 ++
+    [.publish 0 true, .load 0 0, .publish 1 true, .load 1 1]
   exact ⟨run bad tr, run_reachable bad tr, by decide, by decide, by decide⟩
 
 /-- If the getter returned the pointer it decoded itself instead of re-loading the cell, a reader
@@ -182,16 +221,40 @@ theorem returning_own_object_breaks_agreement :
     let bad : Cfg (List Nat) (List Nat) := { demo with result := .mine }
     ∃ s, Reachable bad s ∧ s.pc 0 = .done (some 0) ∧ s.pc 1 = .done (some 1) ∧ s.cell = some 0 ∧ s.lost 1 = true := by
   intro bad
-  let tr : List Ev := [.present 0 true, .present 1 true, .checkNil 0 true, .checkNil 1 true, .decode 0 0, .decode 1 1,
-    .publish 0 true, .publish 1 false]
+  let tr : List Ev := [.present 0 true, .present 1 true, .checkNil 0 true, .checkNil 1 true] ++ dec 0 0 ++ dec 1 1 ++
+    [.publish 0 true, .publish 1 false]
   exact ⟨run bad tr, run_reachable bad tr, by decide, by decide, by decide, by decide⟩
 
+/-- If `lazyUnmarshal` published the object inside the loop over the index entries (publish, then
+keep merging into the shared object), a concurrent reader could return the submessage while only
+the first of its two wire occurrences has been merged: its result is NOT the sequential result,
+and the object it holds is still being written by another thread. -/
+theorem publish_before_complete_breaks_result :
+    let bad : Cfg (List Nat) (List Nat) := { demo with timing := .insideLoop }
+    ∃ s, Reachable bad s ∧ s.pc 1 = .done (some 0) ∧ s.pc 0 = .own 0 1 false ∧
+      (some 0).bind s.heap = some [8] ∧ seqResult bad = some [8, 1] := by
+  intro bad
+  let tr : List Ev := [.present 0 true, .checkNil 0 true, .alloc 0 0, .merge 0, .publish 0 true,
+    .present 1 true, .checkNil 1 false, .load 1 0]
+  exact ⟨run bad tr, run_reachable bad tr, by decide, by decide, by decide, by decide⟩
+
+/-- … and that reader's object changes under its hands afterwards (readers of the same message no
+longer agree on the content they saw). -/
+example :
+    let bad : Cfg (List Nat) (List Nat) := { demo with timing := .insideLoop }
+    let s := run bad [.present 0 true, .checkNil 0 true, .alloc 0 0, .merge 0, .publish 0 true,
+      .present 1 true, .checkNil 1 false, .load 1 0, .merge 0, .publish 0 false, .mergeEnd 0, .load 0 0]
+    s.pc 0 = .done (some 0) ∧ s.pc 1 = .done (some 0) ∧ s.heap 0 = some [8, 1] := by decide
+
 /-- traces that are not runs of the code's protocol are rejected: a second CAS winner, a load that
-returns something else than the cell, a decode after the cell was seen non-nil -/
-example : acceptsTrace demo [.present 0 true, .present 1 true, .checkNil 0 true, .checkNil 1 true,
-    .decode 0 0, .decode 1 1, .publish 0 true, .publish 1 true] = false := by decide
-example : acceptsTrace demo [.present 0 true, .checkNil 0 true, .decode 0 0, .publish 0 true, .load 0 1] = false := by decide
-example : acceptsTrace demo [.present 0 true, .checkNil 0 true, .decode 0 0, .publish 0 true, .load 0 0,
-    .present 1 true, .checkNil 1 true] = false := by decide
+returns something else than the cell, a decode after the cell was seen non-nil, a CAS before all
+entries are merged, a second publication by the same call -/
+example : acceptsTrace demo ([.present 0 true, .present 1 true, .checkNil 0 true, .checkNil 1 true] ++
+    dec 0 0 ++ dec 1 1 ++ [.publish 0 true, .publish 1 true]) = false := by decide
+example : acceptsTrace demo ([.present 0 true, .checkNil 0 true] ++ dec 0 0 ++ [.publish 0 true, .load 0 1]) = false := by decide
+example : acceptsTrace demo ([.present 0 true, .checkNil 0 true] ++ dec 0 0 ++ [.publish 0 true, .load 0 0,
+    .present 1 true, .checkNil 1 true]) = false := by decide
+example : acceptsTrace demo [.present 0 true, .checkNil 0 true, .alloc 0 0, .merge 0, .publish 0 true] = false := by decide
+example : acceptsTrace demo ([.present 0 true, .checkNil 0 true] ++ dec 0 0 ++ [.publish 0 true, .alloc 0 1]) = false := by decide
 
 end C18
